@@ -147,7 +147,7 @@ def run_case(sh: Shard, case, hist=None):
     def bump(k):
         hist[k] = hist.get(k, 0) + 1
 
-    timeout = sh.pick(150, 300)
+    timeout = int(sh.pick(150, 300) * _scale())
     d = R.fresh_dir(sh.scratch)
     try:
         R.materialize(case, d)
@@ -157,12 +157,12 @@ def run_case(sh: Shard, case, hist=None):
             with open(os.path.join(d, "extra.txt"), "w") as f:
                 f.write("extra file for the archive\n")
             extra = ["--add-file", "src=" + os.path.join(d, "extra.txt") + ",dst=/extra.txt"]
-        sf = R.run_sf(d, sh.alarm, timeout, streamflow_file=sf_file, name="vfrun")
+        sf = R.run_sf(d, R.deadline, timeout, streamflow_file=sf_file, name="vfrun")
         if sf[0] != "OK":
             bump("run_" + sf[0].lower())
             sh.count("discarded_run_not_completed")
             return None
-        rc, out, log = C.run_prov(d, sf_file, "vfrun", extra, sh.alarm, timeout)
+        rc, out, log = C.run_prov(d, sf_file, "vfrun", extra, R.deadline, timeout)
         if rc == "TIMEOUT":
             bump("prov_timeout")
             sh.count("discarded_prov_timeout")
